@@ -15,16 +15,35 @@ open QbVerif.Ring QbVerif.Gen
 def qlenFn (r : Rb) : Int := if r.sem.isSome then 1 else 0
 def qlenVal (r : Rb) : Int := match r.sem with | some n => (n : Int) | none => 0
 
+/-- how the model's overwrite flag maps to `rb->flags` (`QB_RB_FLAG_OVERWRITE` = 2) -/
+def FlagsOk (r : Rb) (fl : Nat) : Prop := (Nat.land fl 2 ≠ 0) ↔ r.ow = true
+
 theorem spaceFree_c_eq (r : Rb) (hr : r.rp < r.W) (hw : r.wp < r.W) (hW : r.W < 2 ^ 30)
-    (hs : ∀ n, r.sem = some n → n < 2 ^ 31) (su : Int) :
-    qb_rb_space_free_c (qlenVal r) su 1 (qlenFn r) 0 r.rp r.W r.wp = (r.spaceFree : Int) := by
-  unfold qb_rb_space_free_c Rb.spaceFree wrapU wrapS qlenVal qlenFn
-  rcases hsem : r.sem with _ | n
-  · simp
+    (hs : ∀ n, r.sem = some n → n < 2 ^ 31) (su : Int) (fl : Nat) (hfl : FlagsOk r fl) :
+    qb_rb_space_free_c (qlenVal r) su 1 fl (qlenFn r) 0 r.rp r.W r.wp = (r.spaceFree : Int) := by
+  have e2 : (wrapU 32 (2 : Int)).toNat = 2 := by decide
+  unfold FlagsOk at hfl
+  unfold qb_rb_space_free_c Rb.spaceFree Rb.spaceFreeGen
+  simp only [Int.toNat_natCast, e2, Int.ofNat_eq_natCast]
+  generalize Nat.land fl 2 = k at hfl ⊢
+  unfold wrapU wrapS qlenVal qlenFn
+  rcases how : r.ow with _ | _
+  · have hz : k = 0 := by
+      by_cases h : k = 0
+      · exact h
+      · exact absurd (hfl.mp h) (by simp [how])
+    subst hz
+    rcases hsem : r.sem with _ | n
+    · simp
+      repeat' split
+      all_goals omega
+    · have := hs n hsem
+      cases n <;> simp <;> repeat' split
+      all_goals omega
+  · have hz : k ≠ 0 := hfl.mpr how
+    have hz' : (k : Int) ≠ 0 := by omega
+    simp [hz']
     repeat' split
-    all_goals omega
-  · have := hs n hsem
-    cases n <;> simp <;> repeat' split
     all_goals omega
 
 theorem spaceUsed_c_eq (r : Rb) (hr : r.rp < r.W) (hw : r.wp < r.W) (hW : r.W < 2 ^ 30) (su : Int) :
